@@ -185,6 +185,16 @@ func shoelace(r orb.Ring) float64 {
 	return s
 }
 
+// gpt2 is the half-step grid: k in 0..80 names the point (x/2, y/2), x, y in 0..8; the exact coordinate is in half units.
+func gpt2(k int) (orb.Point, ip) {
+	return orb.Point{float64(k%9) / 2, float64(k/9) / 2}, ip{int64(k % 9), int64(k / 9)}
+}
+
+// family: how ringCaseOf reads its vertices and names the known-finding class of a failure. half: vertices are
+// indexes into the 9x9 half-step grid. keyed: the inputs of the part are a fixed list in both tiers, so a failure of a
+// known class is known only if its key is in the committed list (class suffix ":families").
+var family struct{ half, keyed bool }
+
 func ringKey(r orb.Ring, o orb.Orientation) string {
 	var sb strings.Builder
 	fmt.Fprintf(&sb, "o%d", int(o))
@@ -252,8 +262,15 @@ func main() {
 		general := gb != nil
 		ring := make(orb.Ring, 0, n+1)
 		ir := make([]ip, n)
+		ib, scale := ib, int64(S)
+		if family.half {
+			ib, scale = boxI{2, 2, 6, 6}, S/2
+		}
 		for i := 0; i < n; i++ {
 			p, e := gpt(vertex(i))
+			if family.half {
+				p, e = gpt2(vertex(i))
+			}
 			ring = append(ring, p)
 			ir[i] = e
 		}
@@ -291,7 +308,9 @@ func main() {
 				return base
 			}
 			suffix := ""
-			if n > 4 {
+			if family.keyed {
+				suffix = ":families" // a fixed input list with its own committed key list
+			} else if n > 4 {
 				suffix = ":5-vertex" // outside the committed key list: matched by the predicate alone
 			}
 			switch {
@@ -316,7 +335,7 @@ func main() {
 		}
 		ex := make([]ip, n)
 		for i := range ir {
-			ex[i] = ip{ir[i][0] * S, ir[i][1] * S}
+			ex[i] = ip{ir[i][0] * scale, ir[i][1] * scale}
 		}
 		plain := clip.Ring(box, ring.Clone())
 		nf := len(c.Trail())
@@ -356,6 +375,19 @@ func main() {
 			c.NonTrivial()
 		}
 	}
+	logKeys := func(st mc.Stats) {
+		if !dumpKeys {
+			return
+		}
+		for _, f := range st.Fails {
+			if strings.HasPrefix(f.Class, "smartclip:") {
+				if i := strings.Index(f.Detail, "key="); i >= 0 {
+					k := f.Detail[i+4:]
+					keyLog = append(keyLog, f.Class+" "+k[:strings.IndexByte(k, ' ')])
+				}
+			}
+		}
+	}
 	maxN := ev.Pick(r, 4, 5)
 	for n := 3; n <= maxN; n++ {
 		n := n
@@ -378,7 +410,8 @@ func main() {
 	// frames: rings that go around the whole box (the four corners of the grid, in order) with a notch of two
 	// free vertices cut into one side. Their pieces must be closed by wrapping around the rest of the box, and
 	// the notch edges reach the box through its corners and edges in every combination the grid allows.
-	r.Explore("frames-integer-box", "box [1,3]^2 x the grid frame (0,0)-(4,0)-(4,4)-(0,4) with two free grid vertices inserted on each of its 4 sides x 6 start vertices x both directions; simple rings meeting the open box only", mc.Opts{MaxDev: -1, Split: 3, MaxFails: 2000000, StopAfter: 1 << 30}, func(c *mc.Ctx) {
+	family.keyed = true
+	stf := r.Explore("frames-integer-box", "box [1,3]^2 x the grid frame (0,0)-(4,0)-(4,4)-(0,4) with two free grid vertices inserted on each of its 4 sides x 6 start vertices x both directions; simple rings meeting the open box only", mc.Opts{MaxDev: -1, Split: 3, MaxFails: 2000000, StopAfter: 1 << 30}, func(c *mc.Ctx) {
 		side := c.Choose(4)
 		v1, v2 := c.Choose(G*G), c.Choose(G*G)
 		start := c.Choose(6)
@@ -399,6 +432,46 @@ func main() {
 		}
 		ringCaseOf(c, 6, nil, func(i int) int { return seq[i] })
 	})
+	logKeys(stf)
+	// touching vertices: a ring that comes from outside through one side, touches another side of the box from the
+	// inside with a single vertex, and leaves again - so that two of its clipped pieces end in the same boundary point
+	// while another result polygon is completed first. Half-step grid (the open box holds 3x3 grid points), all 8
+	// symmetries of the square, every start vertex, both directions.
+	family.half = true
+	stt := r.Explore("touching-vertices", "box [1,3]^2, half-step grid: rings (outside-left A, inside B, T on the top side, inside C, outside-top D, outer corner) with A in 3, B and C in 9, T in 3, D in 4 positions x 8 symmetries of the square x 6 start vertices x both directions; simple rings only", mc.Opts{MaxDev: -1, Split: 3, MaxFails: 2000000, StopAfter: 1 << 30}, func(c *mc.Ctx) {
+		a := [2]int{0, 3 + c.Choose(3)}
+		b := [2]int{3 + c.Choose(3), 3 + c.Choose(3)}
+		t := [2]int{3 + c.Choose(3), 6}
+		cc := [2]int{3 + c.Choose(3), 3 + c.Choose(3)}
+		d := [2]int{3 + c.Choose(4), 8}
+		e := [2]int{0, 8}
+		sym := c.Choose(8)
+		start := c.Choose(6)
+		rev := c.Bool()
+		seq := make([]int, 0, 6)
+		for _, p := range [][2]int{a, b, t, cc, d, e} {
+			x, y := p[0]-4, p[1]-4
+			if sym&4 != 0 {
+				x, y = y, x
+			}
+			if sym&1 != 0 {
+				x = -x
+			}
+			if sym&2 != 0 {
+				y = -y
+			}
+			seq = append(seq, (y+4)*9+(x+4))
+		}
+		seq = append(seq[start:], seq[:start]...)
+		if rev {
+			for i, j := 0, len(seq)-1; i < j; i, j = i+1, j-1 {
+				seq[i], seq[j] = seq[j], seq[i]
+			}
+		}
+		ringCaseOf(c, 6, nil, func(i int) int { return seq[i] })
+	})
+	logKeys(stt)
+	family.half, family.keyed = false, false
 	if dumpKeys {
 		sort.Strings(keyLog)
 		byClass := map[string][]string{}
@@ -407,7 +480,7 @@ func main() {
 			byClass[f[0]] = append(byClass[f[0]], f[1])
 		}
 		for cl, ks := range byClass {
-			name := ev.Root + "/known/KF-C16-" + strings.TrimPrefix(cl, "smartclip:") + ".keys"
+			name := ev.Root + "/known/KF-C16-" + strings.ReplaceAll(strings.TrimPrefix(cl, "smartclip:"), ":", "-") + ".keys"
 			os.WriteFile(name, []byte(strings.Join(dedupe(ks), "\n")+"\n"), 0o644)
 			fmt.Println("wrote", name, len(dedupe(ks)))
 		}
